@@ -134,7 +134,7 @@ def explain(case, ix, ref, got, fp):
         elif whys & {'tbp', 'decl-type'} and any(s.get('renamed_type') for s in srcs) and fp:
             add('C21:renamed-derived-type:full-parse', f'{p} uses {t} through a renamed type import; edge missing with full_parse')
         elif 'fcall' in whys and fp:
-            add('C21:inline-call-missed:full-parse', f'{p} calls function {t} (via {sorted(vias)}); edge missing although full_parse=True')
+            add('C21:inline-call-missed:full-parse', f'{p} calls function {t} (via {sorted(str(v) for v in vias)}); edge missing although full_parse=True')
         elif ix.kind(p) == 'binding' and p.count('%') > 1 and not fp:
             add('C21:nested-member-binding-unresolved:regex', f'{p} -> {t} missing: the member declaration was not parsed '
                 'when the binding item was expanded (type reached through an unqualified USE, so no TypeDefItem came first)')
